@@ -647,6 +647,59 @@ Definition wf_check ext_file inflate (img : image) : bool :=
                chk_special ext_file inflate img bl && chk_vrecords ext_file inflate img bl
   end.
 
+(* ---- further cross-checks run by h4read on every closed file (not part of [wf_check]) ------------------- *)
+(** every linked-block data descriptor (tag 20) is a block table or a data block of some linked-block element:
+    a table patched into the wrong place leaves blocks nobody names *)
+Fixpoint link_all_refs (fuel : nat) (get : Z -> Z -> content) (lref : Z) (nblk : nat) : list Z :=
+  match fuel with
+  | O => []
+  | S f =>
+    match get tag_linked lref with
+    | CBytes t => match p_linktable nblk t with
+                  | Some (nx, refs, _) => lref :: refs ++ (if nx =? 0 then [] else link_all_refs f get nx nblk)
+                  | None => [lref]
+                  end
+    | _ => [lref]
+    end
+  end.
+
+Definition linked_used ext_file inflate (img : image) (ds : list dd) : list Z :=
+  flat_map (fun d =>
+    if is_special (dd_tag d) then
+      match raw_of img d with
+      | Some raw => match p_special raw with
+                    | Some (SLinked h, _) =>
+                        if (0 <? lh_nblk h) && (lh_nblk h <? 65536)
+                        then link_all_refs (length img) (element ext_file inflate img ds) (lh_ref h) (Z.to_nat (lh_nblk h))
+                        else []
+                    | _ => []
+                    end
+      | None => []
+      end
+    else []) (live ds).
+
+Definition orphan_blocks ext_file inflate (img : image) (ds : list dd) : list Z :=
+  let used := linked_used ext_file inflate img ds in
+  map dd_ref (filter (fun d => (dd_tag d =? tag_linked) && negb (existsb (Z.eqb (dd_ref d)) used)) (live ds)).
+
+(** scientific-data dimension record (DFTAG_SDD): rank, dimension sizes, then the number-type tag/ref of the data *)
+Definition p_sdd (l : list Z) : option (list Z * (Z * Z)) :=
+  '(rank, r) <- p_i16 l ;; k <- p_count rank r ;; '(dims, r) <- p_rep p_i32 k r ;;
+  '(t, r) <- p_u16 r ;; '(rf, _) <- p_u16 r ;; Some (dims, (t, rf)).
+
+(** old-style label/unit/format element "<data set>NUL<dim 0>NUL<dim 1>NUL...": (offset, length) of string [k] *)
+Fixpoint str_len (l : list Z) : Z := match l with [] => 0 | c :: t => if c =? 0 then 0 else 1 + str_len t end.
+Fixpoint after_nul (l : list Z) : option (list Z) :=
+  match l with [] => None | c :: t => if c =? 0 then Some t else after_nul t end.
+Fixpoint luf_nth (k : nat) (l : list Z) (pos : Z) : option (Z * Z) :=
+  match k with
+  | O => Some (pos, str_len l)
+  | S k' => match after_nul l with
+            | Some rest => luf_nth k' rest (pos + str_len l + 1)
+            | None => None
+            end
+  end.
+
 (* ---- well-formedness, declarative form ------------------------------------------------------------ *)
 (** the DD-block chain starting at [off]: every block parses, each names the next, the last names 0 *)
 Inductive chain (img : image) : Z -> list ddblock -> Prop :=
